@@ -144,12 +144,23 @@ Proof. apply free_k_spec. Qed.
 
 (* ---- invariants ---- *)
 (* between calls: pos is the length of the file whenever it exists *)
+(* between calls: whenever there is a file at <path>, pos is its length and the descriptor
+   refers to it *)
 Definition rinv (st : rf) : Prop :=
-  (rf_exists st = true -> rf_pos st = zlen (rf_cur st)) /\
+  (rf_exists st = true -> rf_pos st = zlen (rf_cur st) /\ rf_fd st = FdAtPath) /\
   (rf_exists st = false -> rf_cur st = []).
 
 (* inside Write after the Stat/reopen step *)
-Definition winv (st : rf) : Prop := rf_exists st = true /\ rf_pos st = zlen (rf_cur st).
+Definition winv (st : rf) : Prop :=
+  rf_exists st = true /\ rf_pos st = zlen (rf_cur st) /\ rf_fd st = FdAtPath.
+
+(* Write through a descriptor that refers to the file at <path> *)
+Definition putp (st : rf) (b : bytes) : rf :=
+  mkRF (rf_max st) (rf_pos st) (rf_exists st) (rf_cur st ++ b)
+       (rf_rot st) (rf_hist st) (rf_moved st) (rf_gone st) (rf_env st).
+
+Lemma put_eq st b : rf_fd st = FdAtPath -> put st b = putp st b.
+Proof. intros H. unfold put. rewrite H. reflexivity. Qed.
 
 (* a file is at most max bytes long unless it is one single (unterminated) line *)
 Definition fits (max : Z) (c : bytes) : Prop := zlen c <= max \/ ~ In NL c.
@@ -185,7 +196,9 @@ Record write_post (clk : nat -> N) (i : nat) (st st' : rf) (p : bytes) (hs : lis
   wp_kind : Forall loop_kind hs;
   wp_skip : Forall (fun e => h_skipped e = [NL] \/ (h_skipped e = [] /\ h_kind e = RFresh)) hs;
   wp_secs : map h_sec hs = map clk (seq i (length hs));
-  wp_nodup : NoDup (map fst (rf_rot st)) -> NoDup (map fst (rf_rot st'))
+  wp_nodup : NoDup (map fst (rf_rot st)) -> NoDup (map fst (rf_rot st'));
+  wp_dir : rf_dir st' = rf_dir st;
+  wp_lost : rf_lost st' = rf_lost st
 }.
 
 Lemma NoDup_snoc {A} (l : list A) x : NoDup l -> ~ In x l -> NoDup (l ++ [x]).
@@ -216,10 +229,10 @@ Proof. left. reflexivity. Qed.
 Lemma final_post clk i st p :
   winv st ->
   (rf_pos st + zlen p <= rf_max st \/ (rf_cur st = [] /\ ~ In NL p)) ->
-  write_post clk i st (set_pos (put st p) (rf_pos st + zlen p)) p [].
+  write_post clk i st (set_pos (putp st p) (rf_pos st + zlen p)) p [].
 Proof.
-  intros (Hex & Hpos) Hc. constructor; cbn; auto.
-  - unfold winv. cbn. rewrite zlen_app. split; [exact Hex|lia].
+  intros (Hex & Hpos & Hfd) Hc. constructor; cbn; auto.
+  - unfold winv. cbn. rewrite zlen_app. split; [exact Hex|]. split; [lia|exact Hfd].
   - rewrite app_nil_r. reflexivity.
   - rewrite app_nil_r. reflexivity.
   - intros _. split; [constructor|]. destruct Hc as [Hc|[Hc Hn]].
@@ -232,6 +245,7 @@ Qed.
 Lemma post_cons clk i st st0 st' a sk kd p1 hs p :
   rf_max st0 = rf_max st -> rf_moved st0 = rf_moved st -> rf_gone st0 = rf_gone st ->
   rf_hist st0 = rf_hist st -> rf_rot st0 = rf_rot st -> rf_cur st0 = rf_cur st ++ a ->
+  rf_dir st0 = rf_dir st -> rf_lost st0 = rf_lost st ->
   p = a ++ sk ++ p1 ->
   (fits (rf_max st) (rf_cur st) -> fits (rf_max st) (rf_cur st ++ a)) ->
   (aligned (rf_cur st) -> ent_fine (mkH (clk i) (free_k (clk i) (rf_rot st)) (rf_cur st ++ a) sk kd)) ->
@@ -240,8 +254,10 @@ Lemma post_cons clk i st st0 st' a sk kd p1 hs p :
   write_post clk (S i) (rotate (clk i) sk kd st0) st' p1 hs ->
   write_post clk i st st' p (mkH (clk i) (free_k (clk i) (rf_rot st)) (rf_cur st ++ a) sk kd :: hs).
 Proof.
-  intros Em Emv Eg Eh Er Ec Ep Hfit Hfine Hkd Hsk Hp. destruct Hp.
-  cbn [rotate rf_max rf_moved rf_gone rf_hist rf_rot rf_cur] in *.
+  intros Em Emv Eg Eh Er Ec Ed El Ep Hfit Hfine Hkd Hsk Hp. destruct Hp.
+  unfold rf_dir, rf_lost in *.
+  cbn [rotate rf_max rf_moved rf_gone rf_hist rf_rot rf_cur rf_env fd_at_path e_dir e_lost] in *.
+  unfold rf_dir, rf_lost in *.
   rewrite Em, ?Emv, ?Eg, ?Eh, ?Er, ?Ec in *.
   constructor.
   - exact wp_inv0.
@@ -260,6 +276,8 @@ Proof.
   - cbn [map length seq h_sec]. rewrite wp_secs0. reflexivity.
   - intros Hn. apply wp_nodup0. rewrite map_app. cbn [map fst].
     apply NoDup_snoc; [exact Hn|apply free_k_fresh].
+  - unfold rf_dir. rewrite wp_dir0. exact Ed.
+  - unfold rf_lost. rewrite wp_lost0. exact El.
 Qed.
 
 Lemma write_loop_ok clk : forall fuel i st p w,
@@ -267,10 +285,10 @@ Lemma write_loop_ok clk : forall fuel i st p w,
   exists st' hs, write_loop fuel clk i st p w = WOk st' (w + zlen p) /\ write_post clk i st st' p hs.
 Proof.
   induction fuel as [|f IH]; intros i st p w Hinv Hf; [lia|].
-  pose proof Hinv as (Hex & Hpos).
+  pose proof Hinv as (Hex & Hpos & Hfd).
   cbn [write_loop].
   destruct (exceeds p (rf_max st - rf_pos st)) eqn:Hc; rewrite exceeds_spec in Hc.
-  2:{ eexists. exists []. split; [reflexivity|]. apply final_post; [exact Hinv|left; lia]. }
+  2:{ eexists. exists []. split; [reflexivity|]. rewrite (put_eq st p Hfd). apply final_post; [exact Hinv|left; lia]. }
   pose proof (window_scan_spec p (rf_max st - rf_pos st) ltac:(lia)) as Hs.
   unfold measure in Hf.
   destruct (window_scan p (rf_max st - rf_pos st)) as [a rest| |]; [| |contradiction].
@@ -278,14 +296,15 @@ Proof.
     destruct Hs as (Hp & Hne & Hle).
     assert (Hlen : length p = (length a + 1 + length rest)%nat)
       by (rewrite Hp, app_length; cbn [length]; lia).
-    set (st1 := rotate (clk i) [NL] RSplit (put st a)).
+    rewrite (put_eq st a Hfd).
+    set (st1 := rotate (clk i) [NL] RSplit (putp st a)).
     destruct (IH (S i) st1 rest (w + zlen a + 1)) as (st' & hs & Hr & Hpost).
     { unfold winv, st1. cbn. auto. }
     { unfold measure, st1. cbn [rotate rf_pos]. cbn. lia. }
     exists st'. eexists. split.
     + rewrite Hr. f_equal. unfold zlen. lia.
-    + apply (post_cons clk i st (put st a) st' a [NL] RSplit rest hs p);
-        [reflexivity|reflexivity|reflexivity|reflexivity|reflexivity|reflexivity|exact Hp
+    + apply (post_cons clk i st (putp st a) st' a [NL] RSplit rest hs p);
+        [reflexivity|reflexivity|reflexivity|reflexivity|reflexivity|reflexivity|reflexivity|reflexivity|exact Hp
         |intros _; left; rewrite zlen_app; lia|intros _; left; reflexivity|auto|auto|exact Hpost].
   - destruct (0 <? rf_pos st) eqn:Ep.
     + (* no newline inside the window, the file is not empty: fresh file, nothing skipped *)
@@ -295,7 +314,7 @@ Proof.
       { unfold measure, st1. cbn [rotate rf_pos]. cbn. lia. }
       exists st'. eexists. split; [exact Hr|].
       pose proof (post_cons clk i st st st' [] [] RFresh p hs p) as PC. rewrite app_nil_r in PC.
-      apply PC; [reflexivity|reflexivity|reflexivity|reflexivity|reflexivity|reflexivity|reflexivity
+      apply PC; [reflexivity|reflexivity|reflexivity|reflexivity|reflexivity|reflexivity|reflexivity|reflexivity|reflexivity
                 |auto|intros Ha; right; split; [reflexivity|exact Ha]|auto|auto|exact Hpost].
     + (* empty file *)
       assert (Hcur : rf_cur st = []) by (apply zlen0_nil; pose proof (zlen_nonneg (rf_cur st)); lia).
@@ -303,17 +322,18 @@ Proof.
       * apply split_first_nl_some in Ef as [Hp Hn].
         assert (Hlen : length p = (length a + 1 + length b)%nat)
           by (rewrite Hp, app_length; cbn [length]; lia).
-        set (st1 := rotate (clk i) [NL] RLong (put st a)).
+        rewrite (put_eq st a Hfd).
+        set (st1 := rotate (clk i) [NL] RLong (putp st a)).
         destruct (IH (S i) st1 b (w + zlen a + 1)) as (st' & hs & Hr & Hpost).
         { unfold winv, st1. cbn. auto. }
         { unfold measure, st1. cbn [rotate rf_pos]. cbn. lia. }
         exists st'. eexists. split.
         -- rewrite Hr. f_equal. unfold zlen. lia.
-        -- apply (post_cons clk i st (put st a) st' a [NL] RLong b hs p);
-             [reflexivity|reflexivity|reflexivity|reflexivity|reflexivity|reflexivity|exact Hp
+        -- apply (post_cons clk i st (putp st a) st' a [NL] RLong b hs p);
+             [reflexivity|reflexivity|reflexivity|reflexivity|reflexivity|reflexivity|reflexivity|reflexivity|exact Hp
              |intros _; right; rewrite Hcur; exact Hn|intros _; left; reflexivity|auto|auto|exact Hpost].
       * apply split_first_nl_none in Ef.
-        eexists. exists []. split; [reflexivity|]. apply final_post; [exact Hinv|right; auto].
+        eexists. exists []. split; [reflexivity|]. rewrite (put_eq st p Hfd). apply final_post; [exact Hinv|right; auto].
 Qed.
 
 Definition after_stat (st : rf) : rf := if rf_exists st then st else reopen st.
@@ -321,28 +341,35 @@ Definition after_stat (st : rf) : rf := if rf_exists st then st else reopen st.
 Lemma after_stat_winv st : rinv st -> winv (after_stat st) /\ rf_cur (after_stat st) = rf_cur st.
 Proof.
   intros (H1 & H2). unfold after_stat, winv. destruct (rf_exists st) eqn:E.
-  - split; [|reflexivity]. rewrite E. auto.
+  - split; [|reflexivity]. rewrite E. destruct (H1 eq_refl). auto.
   - cbn. rewrite (H2 eq_refl). auto.
 Qed.
 
 Lemma winv_rinv st : winv st -> rinv st.
-Proof. intros (H1 & H2). unfold rinv. rewrite H1. split; auto; discriminate. Qed.
+Proof. intros (H1 & H2 & H3). unfold rinv. rewrite H1. split; auto; discriminate. Qed.
 
 Lemma after_stat_fields st :
   rf_max (after_stat st) = rf_max st /\ rf_moved (after_stat st) = rf_moved st /\
   rf_gone (after_stat st) = rf_gone st /\ rf_hist (after_stat st) = rf_hist st /\
-  rf_rot (after_stat st) = rf_rot st.
-Proof. unfold after_stat. destruct (rf_exists st); cbn; auto. Qed.
+  rf_rot (after_stat st) = rf_rot st /\ rf_dir (after_stat st) = rf_dir st /\
+  rf_lost (after_stat st) = rf_lost st.
+Proof. unfold after_stat. destruct (rf_exists st); cbn; repeat split; auto. Qed.
 
+(* destination reachable: Write succeeds *)
 Lemma rf_write_ok clk st p :
-  rinv st ->
+  rinv st -> rf_dir st = true ->
   exists st' hs, rf_write clk st p = WOk st' (zlen p) /\ write_post clk 0 (after_stat st) st' p hs.
 Proof.
-  intros Hinv. destruct (after_stat_winv st Hinv) as [Hw _].
+  intros Hinv Hd. destruct (after_stat_winv st Hinv) as [Hw _].
   destruct (write_loop_ok clk (S (S (2 * length p))) 0%nat (after_stat st) p 0 Hw) as (st' & hs & Hr & Hp).
   { unfold measure. destruct (0 <? _); lia. }
-  exists st', hs. split; [|exact Hp]. unfold rf_write. fold (after_stat st). rewrite Hr. reflexivity.
+  exists st', hs. split; [|exact Hp]. unfold rf_write. rewrite Hd. fold (after_stat st). rewrite Hr. reflexivity.
 Qed.
+
+(* destination unreachable: Stat and reopen fail, the error is returned, nothing changes - in
+   particular the descriptor and the position are kept for when the destination is back *)
+Lemma rf_write_err clk st p : rf_dir st = false -> rf_write clk st p = WErr st.
+Proof. intros H. unfold rf_write. rewrite H. reflexivity. Qed.
 
 (* ---- whole histories ---- *)
 Definition hist_moved (h : list hent) : list bytes := map h_content (filter is_moved h).
@@ -354,7 +381,8 @@ Record ginv (st : rf) : Prop := {
   g_rot : rf_rot st = hist_rot (rf_hist st);
   g_moved : rf_moved st = hist_moved (rf_hist st);
   g_gone : rf_gone st = hist_gone (rf_hist st);
-  g_nodup : NoDup (map fst (rf_rot st))
+  g_nodup : NoDup (map fst (rf_rot st));
+  g_lost : rf_lost st = []          (* nothing was ever written through a stale descriptor *)
 }.
 
 Lemma loop_kind_filters hs : Forall loop_kind hs ->
@@ -366,13 +394,16 @@ Proof.
 Qed.
 
 Lemma ginv_write clk st p :
-  ginv st ->
-  exists st' hs, rf_write clk st p = WOk st' (zlen p) /\ ginv st' /\
+  ginv st -> rf_dir st = true ->
+  exists st' hs, rf_write clk st p = WOk st' (zlen p) /\ ginv st' /\ rf_dir st' = true /\
                  write_post clk 0 (after_stat st) st' p hs.
 Proof.
-  intros G. destruct (rf_write_ok clk st p (g_rinv _ G)) as (st' & hs & Hr & Hp).
-  exists st', hs. split; [exact Hr|]. split; [|exact Hp].
-  destruct (after_stat_fields st) as (F1 & F2 & F3 & F4 & F5). destruct Hp.
+  intros G Hd. destruct (rf_write_ok clk st p (g_rinv _ G) Hd) as (st' & hs & Hr & Hp).
+  exists st', hs. split; [exact Hr|].
+  destruct (after_stat_fields st) as (F1 & F2 & F3 & F4 & F5 & F6 & F7).
+  assert (Hd' : rf_dir st' = true) by (rewrite (wp_dir _ _ _ _ _ _ Hp), F6; exact Hd).
+  split; [|split; [exact Hd'|exact Hp]].
+  destruct Hp.
   destruct (loop_kind_filters hs wp_kind0) as (K1 & K2 & K3).
   constructor.
   - apply winv_rinv. exact wp_inv0.
@@ -381,14 +412,15 @@ Proof.
   - rewrite wp_moved0, wp_hist0, F2, F4. unfold hist_moved. rewrite filter_app, map_app, K2, app_nil_r. apply G.
   - rewrite wp_gone0, wp_hist0, F3, F4. unfold hist_gone. rewrite filter_app, map_app, K3, app_nil_r. apply G.
   - apply wp_nodup0. rewrite F5. apply G.
+  - rewrite wp_lost0, F7. apply G.
 Qed.
 
 Lemma reopen_ginv s st :
   rf_rot st = hist_rot (rf_hist st) -> rf_moved st = hist_moved (rf_hist st) ->
-  rf_gone st = hist_gone (rf_hist st) -> NoDup (map fst (rf_rot st)) ->
+  rf_gone st = hist_gone (rf_hist st) -> NoDup (map fst (rf_rot st)) -> rf_lost st = [] ->
   ginv (rf_reopen s st).
 Proof.
-  intros Gr Gm Gg Gn. unfold rf_reopen. cbn [rf_pos rf_max].
+  intros Gr Gm Gg Gn Gl. unfold rf_reopen. cbn [rf_pos rf_max].
   destruct (zlen (rf_cur st) <? rf_max st) eqn:E.
   - constructor; cbn; auto. unfold rinv; cbn. split; auto; discriminate.
   - constructor.
@@ -397,14 +429,18 @@ Proof.
     + cbn [rotate rf_moved rf_hist rf_cur]. unfold hist_moved. rewrite filter_app, map_app. cbn. rewrite app_nil_r. exact Gm.
     + cbn [rotate rf_gone rf_hist rf_cur]. unfold hist_gone. rewrite filter_app, map_app. cbn. rewrite app_nil_r. exact Gg.
     + apply rotate_nodup. exact Gn.
+    + cbn. exact Gl.
 Qed.
 
 Lemma ginv_reopen s st : ginv st -> ginv (rf_reopen s st).
 Proof. intros G. apply reopen_ginv; apply G. Qed.
 
+Lemma ginv_restart s st : ginv st -> ginv (ext_restart s st).
+Proof. intros G. unfold ext_restart. destruct (rf_dir st); [apply ginv_reopen, G|exact G]. Qed.
+
 Lemma ginv_remove st : ginv st -> ginv (ext_remove st).
 Proof.
-  intros G. unfold ext_remove. destruct (rf_exists st) eqn:E; [|exact G].
+  intros G. unfold ext_remove. destruct (rf_dir st && rf_exists st) eqn:E; [|exact G].
   constructor; cbn [rf_rot rf_moved rf_gone rf_hist]; try apply G.
   - unfold rinv; cbn. split; auto; discriminate.
   - unfold hist_rot. rewrite filter_app. cbn. rewrite app_nil_r. apply G.
@@ -414,7 +450,7 @@ Qed.
 
 Lemma ginv_move st : ginv st -> ginv (ext_move st).
 Proof.
-  intros G. unfold ext_move. destruct (rf_exists st) eqn:E; [|exact G].
+  intros G. unfold ext_move. destruct (rf_dir st && rf_exists st) eqn:E; [|exact G].
   constructor; cbn [rf_rot rf_moved rf_gone rf_hist]; try apply G.
   - unfold rinv; cbn. split; auto; discriminate.
   - unfold hist_rot. rewrite filter_app. cbn. rewrite app_nil_r. apply G.
@@ -422,58 +458,92 @@ Proof.
   - unfold hist_gone. rewrite filter_app. cbn. rewrite app_nil_r. apply G.
 Qed.
 
+Lemma ginv_dir b st : ginv st -> ginv (ext_dir b st).
+Proof.
+  intros G. constructor; apply G.
+Qed.
+
 Lemma ginv_open max s init : ginv (rf_open max s init).
 Proof. unfold rf_open. apply reopen_ginv; cbn; auto. constructor. Qed.
 
-Fixpoint written_lens (ops : list op) : list Z :=
+(* what each Write returns: len p while the destination is reachable, an error otherwise *)
+Fixpoint written_lens (d : bool) (ops : list op) : list (option Z) :=
   match ops with
   | [] => []
-  | OWrite _ p :: r => zlen p :: written_lens r
-  | _ :: r => written_lens r
+  | OWrite _ p :: r => (if d then Some (zlen p) else None) :: written_lens d r
+  | ODirAway :: r => written_lens false r
+  | ODirBack :: r => written_lens true r
+  | _ :: r => written_lens d r
   end.
 
-(* Write never panics, never runs out of fuel, reports len(p); the invariant is kept *)
+Lemma dir_remove st : rf_dir (ext_remove st) = rf_dir st.
+Proof. unfold ext_remove. destruct (rf_dir st && rf_exists st); reflexivity. Qed.
+Lemma dir_move st : rf_dir (ext_move st) = rf_dir st.
+Proof. unfold ext_move. destruct (rf_dir st && rf_exists st); reflexivity. Qed.
+Lemma dir_reopen s st : rf_dir (rf_reopen s st) = rf_dir st.
+Proof. unfold rf_reopen. cbn [rf_pos rf_max]. destruct (_ <? _); reflexivity. Qed.
+Lemma dir_restart s st : rf_dir (ext_restart s st) = rf_dir st.
+Proof. unfold ext_restart. destruct (rf_dir st) eqn:E; [rewrite dir_reopen|]; exact E. Qed.
+
+(* Write never panics and never runs out of fuel; it reports len(p) exactly while the
+   destination is reachable; the invariant is kept *)
 Lemma run_total : forall ops st rets,
-  ginv st -> exists st', run st rets ops = Some (st', rets ++ written_lens ops) /\ ginv st'.
+  ginv st -> exists st', run st rets ops = Some (st', rets ++ written_lens (rf_dir st) ops) /\ ginv st'.
 Proof.
   induction ops as [|o r IH]; intros st rets G; cbn [run written_lens].
   - exists st. rewrite app_nil_r. auto.
-  - destruct o as [clk p| | |s].
-    + destruct (ginv_write clk st p G) as (st' & hs & Hr & G' & _). rewrite Hr.
-      destruct (IH st' (rets ++ [zlen p]) G') as (st'' & Hrun & G'').
-      exists st''. rewrite Hrun, <- app_assoc. auto.
-    + apply IH, ginv_remove, G.
-    + apply IH, ginv_move, G.
-    + apply IH, ginv_reopen, G.
+  - destruct o as [clk p| | |s| |].
+    + destruct (rf_dir st) eqn:Hd.
+      * destruct (ginv_write clk st p G Hd) as (st' & hs & Hr & G' & Hd' & _). rewrite Hr.
+        destruct (IH st' (rets ++ [Some (zlen p)]) G') as (st'' & Hrun & G'').
+        exists st''. rewrite Hrun, Hd', <- app_assoc. auto.
+      * rewrite (rf_write_err clk st p Hd).
+        destruct (IH st (rets ++ [None]) G) as (st'' & Hrun & G'').
+        exists st''. rewrite Hrun, Hd, <- app_assoc. auto.
+    + rewrite <- (dir_remove st). apply IH, ginv_remove, G.
+    + rewrite <- (dir_move st). apply IH, ginv_move, G.
+    + rewrite <- (dir_restart s st). apply IH, ginv_restart, G.
+    + apply (IH (ext_dir false st)), ginv_dir, G.
+    + apply (IH (ext_dir true st)), ginv_dir, G.
 Qed.
 
-(* a generic way to carry a state predicate through a history *)
-Fixpoint writes_all (W : bytes -> Prop) (ops : list op) : Prop :=
+(* a generic way to carry a state predicate through a history; W constrains the batches written
+   while the destination is reachable *)
+Fixpoint writes_all (W : bytes -> Prop) (d : bool) (ops : list op) : Prop :=
   match ops with
   | [] => True
-  | OWrite _ p :: r => W p /\ writes_all W r
-  | _ :: r => writes_all W r
+  | OWrite _ p :: r => (d = true -> W p) /\ writes_all W d r
+  | ODirAway :: r => writes_all W false r
+  | ODirBack :: r => writes_all W true r
+  | _ :: r => writes_all W d r
   end.
 
 Lemma run_preserves (P : rf -> Prop) (W : bytes -> Prop) :
-  (forall clk p st st' hs, W p -> ginv st -> P st ->
+  (forall clk p st st' hs, W p -> ginv st -> rf_dir st = true -> P st ->
       write_post clk 0 (after_stat st) st' p hs -> P st') ->
   (forall st, ginv st -> P st -> P (ext_remove st)) ->
   (forall st, ginv st -> P st -> P (ext_move st)) ->
   (forall s st, ginv st -> P st -> P (rf_reopen s st)) ->
+  (forall b st, ginv st -> P st -> P (ext_dir b st)) ->
   forall ops st rets st' rets',
-    writes_all W ops -> ginv st -> P st -> run st rets ops = Some (st', rets') -> P st'.
+    writes_all W (rf_dir st) ops -> ginv st -> P st -> run st rets ops = Some (st', rets') -> P st'.
 Proof.
-  intros Hw Hr Hm Ho. induction ops as [|o r IH]; intros st rets st' rets' HQ G HP H; cbn [run writes_all] in *.
+  intros Hw Hr Hm Ho Hdir. induction ops as [|o r IH]; intros st rets st' rets' HQ G HP H; cbn [run writes_all] in *.
   - inversion H; subst. exact HP.
-  - destruct o as [clk p| | |s].
-    + destruct HQ as [Wp HQ].
-      destruct (ginv_write clk st p G) as (st1 & hs & Hrw & G1 & Hpost). rewrite Hrw in H.
-      exact (IH st1 _ _ _ HQ G1 (Hw clk p st st1 hs Wp G HP Hpost) H).
-    + exact (IH _ _ _ _ HQ (ginv_remove st G) (Hr st G HP) H).
-    + exact (IH _ _ _ _ HQ (ginv_move st G) (Hm st G HP) H).
-    + exact (IH _ _ _ _ HQ (ginv_reopen s st G) (Ho s st G HP) H).
+  - destruct o as [clk p| | |s| |].
+    + destruct HQ as [Wp HQ]. destruct (rf_dir st) eqn:Hd.
+      * destruct (ginv_write clk st p G Hd) as (st1 & hs & Hrw & G1 & Hd1 & Hpost). rewrite Hrw in H.
+        rewrite <- Hd1 in HQ.
+        exact (IH st1 _ _ _ HQ G1 (Hw clk p st st1 hs (Wp eq_refl) G Hd HP Hpost) H).
+      * rewrite (rf_write_err clk st p Hd) in H. rewrite <- Hd in HQ. exact (IH st _ _ _ HQ G HP H).
+    + rewrite <- (dir_remove st) in HQ. exact (IH _ _ _ _ HQ (ginv_remove st G) (Hr st G HP) H).
+    + rewrite <- (dir_move st) in HQ. exact (IH _ _ _ _ HQ (ginv_move st G) (Hm st G HP) H).
+    + rewrite <- (dir_restart s st) in HQ. refine (IH _ _ _ _ HQ (ginv_restart s st G) _ H).
+      unfold ext_restart. destruct (rf_dir st); [apply Ho; assumption|exact HP].
+    + exact (IH (ext_dir false st) _ _ _ HQ (ginv_dir false st G) (Hdir false st G HP) H).
+    + exact (IH (ext_dir true st) _ _ _ HQ (ginv_dir true st G) (Hdir true st G HP) H).
 Qed.
+
 (* ---- lines ---- *)
 Lemma lines_of_nil_inv b : lines_of b = [] -> b = [].
 Proof.
@@ -590,40 +660,73 @@ Proof.
 Qed.
 
 
-(* ---- byte accounting: every byte handed to Write is in a file, except the newlines skipped ---- *)
-Lemma run_stream : forall ops st rets st' rets',
-  ginv st -> run st rets ops = Some (st', rets') ->
-  hist_stream (rf_hist st') ++ rf_cur st' = hist_stream (rf_hist st) ++ rf_cur st ++ written_of ops.
+(* ---- byte accounting: every byte handed to Write while the destination is reachable is in a
+   file, except the newlines skipped ---- *)
+Definition stream_of (st : rf) : bytes := hist_stream (rf_hist st) ++ rf_cur st.
+
+Lemma write_stream clk st st' p hs :
+  ginv st -> write_post clk 0 (after_stat st) st' p hs -> stream_of st' = stream_of st ++ p.
 Proof.
-  induction ops as [|o r IH]; intros st rets st' rets' G H; cbn [run written_of] in *.
-  - inversion H; subst. rewrite app_nil_r. reflexivity.
-  - destruct o as [clk p| | |s].
-    + destruct (ginv_write clk st p G) as (st1 & hs & Hr & G1 & Hp). rewrite Hr in H.
-      destruct (after_stat_winv st (g_rinv _ G)) as [_ Ec].
-      destruct (after_stat_fields st) as (_ & _ & _ & Eh & _). destruct Hp.
-      rewrite (IH st1 _ _ _ G1 H), wp_hist0, Eh, hist_stream_app, <- !app_assoc. f_equal.
-      rewrite (app_assoc (hist_stream hs)), wp_stream0, Ec, <- app_assoc. reflexivity.
-    + rewrite (IH _ _ _ _ (ginv_remove st G) H). unfold ext_remove. destruct (rf_exists st); [|reflexivity].
-      cbn [rf_hist rf_cur]. rewrite hist_stream_app. unfold hist_stream at 2. cbn. rewrite !app_nil_r, <- app_assoc. reflexivity.
-    + rewrite (IH _ _ _ _ (ginv_move st G) H). unfold ext_move. destruct (rf_exists st); [|reflexivity].
-      cbn [rf_hist rf_cur]. rewrite hist_stream_app. unfold hist_stream at 2. cbn. rewrite !app_nil_r, <- app_assoc. reflexivity.
-    + rewrite (IH _ _ _ _ (ginv_reopen s st G) H). unfold rf_reopen. cbn [rf_pos rf_max].
-      destruct (_ <? _); cbn [rf_hist rf_cur rotate]; [reflexivity|].
-      rewrite hist_stream_app. unfold hist_stream at 2. cbn. rewrite !app_nil_r, <- app_assoc. reflexivity.
+  intros G Hp. unfold stream_of.
+  destruct (after_stat_winv st (g_rinv _ G)) as [_ Ec].
+  destruct (after_stat_fields st) as (_ & _ & _ & Eh & _). destruct Hp.
+  rewrite wp_hist0, Eh, hist_stream_app, <- !app_assoc. f_equal. rewrite wp_stream0, Ec. reflexivity.
 Qed.
 
-Lemma open_stream max s init :
-  hist_stream (rf_hist (rf_open max s init)) ++ rf_cur (rf_open max s init) = init.
+Lemma stream_remove st : stream_of (ext_remove st) = stream_of st.
 Proof.
-  unfold rf_open, rf_reopen. cbn [rf_pos rf_max rf_cur]. destruct (_ <? _); cbn; [auto|].
+  unfold ext_remove, stream_of. destruct (rf_dir st && rf_exists st); [|reflexivity].
+  cbn [rf_hist rf_cur]. rewrite hist_stream_app. unfold hist_stream at 2. cbn. rewrite !app_nil_r. reflexivity.
+Qed.
+
+Lemma stream_move st : stream_of (ext_move st) = stream_of st.
+Proof.
+  unfold ext_move, stream_of. destruct (rf_dir st && rf_exists st); [|reflexivity].
+  cbn [rf_hist rf_cur]. rewrite hist_stream_app. unfold hist_stream at 2. cbn. rewrite !app_nil_r. reflexivity.
+Qed.
+
+Lemma stream_reopen s st : stream_of (rf_reopen s st) = stream_of st.
+Proof.
+  unfold rf_reopen, stream_of. cbn [rf_pos rf_max]. destruct (_ <? _); cbn [rf_hist rf_cur rotate]; [reflexivity|].
+  rewrite hist_stream_app. unfold hist_stream at 2. cbn. rewrite !app_nil_r. reflexivity.
+Qed.
+
+Lemma stream_restart s st : stream_of (ext_restart s st) = stream_of st.
+Proof. unfold ext_restart. destruct (rf_dir st); [apply stream_reopen|reflexivity]. Qed.
+
+Lemma run_stream : forall ops st rets st' rets',
+  ginv st -> run st rets ops = Some (st', rets') ->
+  stream_of st' = stream_of st ++ accepted (rf_dir st) ops.
+Proof.
+  induction ops as [|o r IH]; intros st rets st' rets' G H; cbn [run accepted] in *.
+  - inversion H; subst. rewrite app_nil_r. reflexivity.
+  - destruct o as [clk p| | |s| |].
+    + destruct (rf_dir st) eqn:Hd.
+      * destruct (ginv_write clk st p G Hd) as (st1 & hs & Hr & G1 & Hd1 & Hp). rewrite Hr in H.
+        rewrite (IH st1 _ _ _ G1 H), (write_stream clk st st1 p hs G Hp), Hd1, <- app_assoc. reflexivity.
+      * rewrite (rf_write_err clk st p Hd) in H. rewrite (IH st _ _ _ G H), Hd. reflexivity.
+    + rewrite (IH _ _ _ _ (ginv_remove st G) H), stream_remove, dir_remove. reflexivity.
+    + rewrite (IH _ _ _ _ (ginv_move st G) H), stream_move, dir_move. reflexivity.
+    + rewrite (IH _ _ _ _ (ginv_restart s st G) H), stream_restart, dir_restart. reflexivity.
+    + rewrite (IH _ _ _ _ (ginv_dir false st G) H). reflexivity.
+    + rewrite (IH _ _ _ _ (ginv_dir true st G) H). reflexivity.
+Qed.
+
+Lemma open_stream max s init : stream_of (rf_open max s init) = init.
+Proof.
+  unfold stream_of, rf_open, rf_reopen. cbn [rf_pos rf_max rf_cur]. destruct (_ <? _); cbn; [auto|].
   unfold hist_stream; cbn. rewrite !app_nil_r. auto.
 Qed.
+
+Lemma open_dir max s init : rf_dir (rf_open max s init) = true.
+Proof. unfold rf_open. rewrite dir_reopen. reflexivity. Qed.
 
 Lemma bytes_accounted max s init ops st rets :
   run (rf_open max s init) [] ops = Some (st, rets) ->
   hist_stream (rf_hist st) ++ rf_cur st = init ++ written_of ops.
 Proof.
-  intros H. rewrite (run_stream ops _ _ _ _ (ginv_open max s init) H), app_assoc, open_stream. reflexivity.
+  intros H. pose proof (run_stream ops _ _ _ _ (ginv_open max s init) H) as E.
+  rewrite open_stream, open_dir in E. exact E.
 Qed.
 
 (* ---- every file left <path> at a line boundary ---- *)
@@ -635,35 +738,56 @@ Proof.
   split; [apply aligned_nil|]. apply Forall_app. split; [exact Hf|]. constructor; [right; auto|constructor].
 Qed.
 
+Lemma fine_write clk st st' p hs :
+  aligned p -> ginv st -> fine_state st -> write_post clk 0 (after_stat st) st' p hs -> fine_state st'.
+Proof.
+  intros Wp G [Ha Hf] Hp.
+  destruct (after_stat_winv st (g_rinv _ G)) as [_ Ec].
+  destruct (after_stat_fields st) as (_ & _ & _ & Eh & _). destruct Hp.
+  rewrite Ec in *. rewrite Eh in *. split.
+  - apply (aligned_suffix (hist_stream hs)). rewrite wp_stream0. apply aligned_app; assumption.
+  - rewrite wp_hist0. apply Forall_app. split; [exact Hf|apply wp_fine0, Ha].
+Qed.
+
+Lemma fine_remove st : fine_state st -> fine_state (ext_remove st).
+Proof.
+  intros [Ha Hf]. unfold ext_remove, fine_state. destruct (rf_dir st && rf_exists st); cbn; [|auto].
+  split; [apply aligned_nil|]. apply Forall_app. split; [exact Hf|]. constructor; [right; auto|constructor].
+Qed.
+
+Lemma fine_move st : fine_state st -> fine_state (ext_move st).
+Proof.
+  intros [Ha Hf]. unfold ext_move, fine_state. destruct (rf_dir st && rf_exists st); cbn; [|auto].
+  split; [apply aligned_nil|]. apply Forall_app. split; [exact Hf|]. constructor; [right; auto|constructor].
+Qed.
+
 Lemma run_fine : forall ops st rets st' rets',
-  writes_all aligned ops -> ginv st -> fine_state st ->
+  writes_all aligned (rf_dir st) ops -> ginv st -> fine_state st ->
   run st rets ops = Some (st', rets') -> fine_state st'.
 Proof.
   apply (run_preserves fine_state aligned).
-  - intros clk p st st' hs Wp G [Ha Hf] Hp.
-    destruct (after_stat_winv st (g_rinv _ G)) as [_ Ec].
-    destruct (after_stat_fields st) as (_ & _ & _ & Eh & _). destruct Hp.
-    rewrite Ec in *. rewrite Eh in *. split.
-    + apply (aligned_suffix (hist_stream hs)). rewrite wp_stream0. apply aligned_app; assumption.
-    + rewrite wp_hist0. apply Forall_app. split; [exact Hf|apply wp_fine0, Ha].
-  - intros st G [Ha Hf]. unfold ext_remove, fine_state. destruct (rf_exists st); cbn; [|auto].
-    split; [apply aligned_nil|]. apply Forall_app. split; [exact Hf|]. constructor; [right; auto|constructor].
-  - intros st G [Ha Hf]. unfold ext_move, fine_state. destruct (rf_exists st); cbn; [|auto].
-    split; [apply aligned_nil|]. apply Forall_app. split; [exact Hf|]. constructor; [right; auto|constructor].
+  - intros clk p st st' hs Wp G _ F Hp. eapply fine_write; eauto.
+  - intros st _. apply fine_remove.
+  - intros st _. apply fine_move.
   - intros s st _. apply fine_reopen.
+  - intros b st _ F. exact F.
 Qed.
 
-Fixpoint writes_aligned (ops : list op) : bool :=
+(* the batches written while the destination is reachable end with a newline *)
+Fixpoint writes_aligned (d : bool) (ops : list op) : bool :=
   match ops with
   | [] => true
-  | OWrite _ p :: r => aligned_b p && writes_aligned r
-  | _ :: r => writes_aligned r
+  | OWrite _ p :: r => (if d then aligned_b p else true) && writes_aligned d r
+  | ODirAway :: r => writes_aligned false r
+  | ODirBack :: r => writes_aligned true r
+  | _ :: r => writes_aligned d r
   end.
 
-Lemma writes_aligned_all ops : writes_aligned ops = true -> writes_all aligned ops.
+Lemma writes_aligned_all ops : forall d, writes_aligned d ops = true -> writes_all aligned d ops.
 Proof.
-  induction ops as [|o r IH]; cbn; [auto|]. destruct o; auto.
-  intros H. apply andb_true_iff in H as [H1 H2]. split; [apply aligned_b_sound, H1|auto].
+  induction ops as [|o r IH]; intros d; cbn; [auto|]. destruct o; auto.
+  intros H. apply andb_true_iff in H as [H1 H2]. split; [|auto].
+  intros ->. apply aligned_b_sound, H1.
 Qed.
 
 (* ---- the size bound ---- *)
@@ -671,25 +795,26 @@ Definition fits_state (max : Z) (st : rf) : Prop :=
   rf_max st = max /\ fits max (rf_cur st) /\ Forall (fun e => fits max (h_content e)) (rf_hist st).
 
 Lemma run_fits max : forall ops st rets st' rets',
-  writes_all (fun _ => True) ops -> ginv st -> fits_state max st ->
+  writes_all (fun _ => True) (rf_dir st) ops -> ginv st -> fits_state max st ->
   run st rets ops = Some (st', rets') -> fits_state max st'.
 Proof.
   apply (run_preserves (fits_state max) (fun _ => True)).
-  - intros clk p st st' hs _ G (Hm & Hc & Hh) Hp.
+  - intros clk p st st' hs _ G _ (Hm & Hc & Hh) Hp.
     destruct (after_stat_winv st (g_rinv _ G)) as [_ Ec].
     destruct (after_stat_fields st) as (Em & _ & _ & Eh & _). destruct Hp.
     rewrite Ec, Em, Hm in *. rewrite Eh in *. destruct (wp_fits0 Hc) as [F1 F2].
     split; [congruence|]. split; [exact F2|]. rewrite wp_hist0. apply Forall_app. auto.
-  - intros st G (Hm & Hc & Hh). unfold ext_remove, fits_state. destruct (rf_exists st); cbn; [|auto].
+  - intros st G (Hm & Hc & Hh). unfold ext_remove, fits_state. destruct (rf_dir st && rf_exists st); cbn; [|auto].
     split; [exact Hm|]. split; [apply fits_nil|]. apply Forall_app. split; [exact Hh|]. constructor; [exact Hc|constructor].
-  - intros st G (Hm & Hc & Hh). unfold ext_move, fits_state. destruct (rf_exists st); cbn; [|auto].
+  - intros st G (Hm & Hc & Hh). unfold ext_move, fits_state. destruct (rf_dir st && rf_exists st); cbn; [|auto].
     split; [exact Hm|]. split; [apply fits_nil|]. apply Forall_app. split; [exact Hh|]. constructor; [exact Hc|constructor].
   - intros s st G (Hm & Hc & Hh). unfold rf_reopen, fits_state. cbn [rf_pos rf_max]. destruct (_ <? _); cbn; [auto|].
     split; [exact Hm|]. split; [apply fits_nil|]. apply Forall_app. split; [exact Hh|]. constructor; [exact Hc|constructor].
+  - intros b st _ F. exact F.
 Qed.
 
-Lemma writes_all_true ops : writes_all (fun _ => True) ops.
-Proof. induction ops as [|o r IH]; cbn; [auto|]. destruct o; auto. Qed.
+Lemma writes_all_true ops : forall d, writes_all (fun _ => True) d ops.
+Proof. induction ops as [|o r IH]; intros d; cbn; [auto|]. destruct o; auto. Qed.
 
 Lemma in_hist_files x hs : In x (hist_files hs) -> exists e, In e hs /\ snd x = h_content e.
 Proof. unfold hist_files. intros H. apply in_map_iff in H as (e & <- & He). eauto. Qed.
@@ -708,7 +833,7 @@ Proof.
   assert (F0 : fits_state max (rf_open max s init)).
   { unfold rf_open, rf_reopen, fits_state. cbn [rf_pos rf_max rf_cur]. destruct (_ <? _); cbn; [auto|].
     split; [reflexivity|]. split; [apply fits_nil|]. constructor; [exact Hi|constructor]. }
-  destruct (run_fits max ops _ _ _ _ (writes_all_true ops) (ginv_open max s init) F0 H) as (_ & Fc & Fh).
+  destruct (run_fits max ops _ _ _ _ (writes_all_true ops _) (ginv_open max s init) F0 H) as (_ & Fc & Fh).
   rewrite Forall_forall in Fh.
   split; [exact Fc|]. split; [|split].
   - intros x Hx. rewrite (g_rot _ G) in Hx. apply in_hist_files in Hx as (e & He & ->).
@@ -723,19 +848,21 @@ Qed.
 Definition hist_lines (h : list hent) : list bytes := flat_map (fun e => lines_of (h_content e)) h.
 
 Lemma lines_kept_all max s init ops st rets :
-  aligned_b init = true -> writes_aligned ops = true -> no_blank_b (init ++ written_of ops) = true ->
+  aligned_b init = true -> writes_aligned true ops = true -> no_blank_b (init ++ written_of ops) = true ->
   run (rf_open max s init) [] ops = Some (st, rets) ->
   hist_lines (rf_hist st) ++ lines_of (rf_cur st) = lines_of (init ++ written_of ops) /\
   rf_rot st = hist_rot (rf_hist st) /\ rf_moved st = hist_moved (rf_hist st) /\
-  rf_gone st = hist_gone (rf_hist st) /\ NoDup (map fst (rf_rot st)).
+  rf_gone st = hist_gone (rf_hist st) /\ NoDup (map fst (rf_rot st)) /\ rf_lost st = [].
 Proof.
   intros Hi Hw Hb H.
   destruct (run_total ops _ [] (ginv_open max s init)) as (st' & Hrun & G).
   rewrite H in Hrun. inversion Hrun; subst st'. clear Hrun.
-  split; [|split; [apply G|split; [apply G|split; apply G]]].
+  split; [|split; [apply G|split; [apply G|split; [apply G|split; apply G]]]].
   assert (F0 : fine_state (rf_open max s init)).
   { unfold rf_open. apply fine_reopen. split; [apply aligned_b_sound, Hi|constructor]. }
-  destruct (run_fine ops _ _ _ _ (writes_aligned_all ops Hw) (ginv_open max s init) F0 H) as [_ Hf].
+  assert (Hw' : writes_all aligned (rf_dir (rf_open max s init)) ops)
+    by (rewrite open_dir; apply writes_aligned_all, Hw).
+  destruct (run_fine ops _ _ _ _ Hw' (ginv_open max s init) F0 H) as [_ Hf].
   apply lines_of_history; [eapply bytes_accounted; eauto|apply no_blank_b_sound, Hb|exact Hf].
 Qed.
 
@@ -753,9 +880,9 @@ Proof.
 Qed.
 
 (* nobody removed or renamed the log file: the rotated files in order of rotation followed by
-   the active file hold exactly the lines written *)
+   the active file hold exactly the lines written while the destination was reachable *)
 Lemma lines_kept max s init ops st rets :
-  aligned_b init = true -> writes_aligned ops = true -> no_blank_b (init ++ written_of ops) = true ->
+  aligned_b init = true -> writes_aligned true ops = true -> no_blank_b (init ++ written_of ops) = true ->
   run (rf_open max s init) [] ops = Some (st, rets) ->
   rf_moved st = [] -> rf_gone st = [] ->
   flat_map lines_of (map snd (rf_rot st)) ++ lines_of (rf_cur st) = lines_of (init ++ written_of ops).
@@ -767,24 +894,116 @@ Proof.
   - rewrite Eg in Hg. unfold hist_gone in Hg. apply map_eq_nil in Hg. exact Hg.
 Qed.
 
-(* ---- the channel: every request is received, whatever the events ---- *)
-Lemma wl_run_total : forall es w,
-  ginv (wl_rf w) -> exists w', wl_run w es = Some w' /\ ginv (wl_rf w').
+(* ---- the channel ---- *)
+Definition send_ok (e : wev) : Prop := match e with ESend _ l => aligned l | _ => True end.
+
+Lemma aligned_concat ls : Forall aligned ls -> aligned (concat ls).
+Proof. induction 1; cbn; [apply aligned_nil|apply aligned_app; assumption]. Qed.
+
+(* invariant of the writer goroutine: what is in the files, plus what sits in the buffer if the
+   destination is reachable, is what was there at the start plus the lines accepted so far *)
+Record winvc (init : bytes) (w : wl) (acc : bytes) : Prop := {
+  wi_g : ginv (wl_rf w);
+  wi_fine : fine_state (wl_rf w);
+  wi_buf : Forall aligned (wl_buf w);
+  wi_stream : stream_of (wl_rf w) ++ (if rf_dir (wl_rf w) then concat (wl_buf w) else []) = init ++ acc
+}.
+
+Lemma flush_inv init clk w acc :
+  winvc init w acc ->
+  exists w', wl_flush clk w = Some w' /\ winvc init w' acc /\ wl_buf w' = [] /\
+             rf_dir (wl_rf w') = rf_dir (wl_rf w).
+Proof.
+  intros [G F B S]. unfold wl_flush. destruct (wl_buf w) as [|l ls] eqn:Eb.
+  - exists w. split; [reflexivity|]. split; [|split; [exact Eb|reflexivity]].
+    constructor; auto; rewrite Eb; assumption.
+  - destruct (rf_dir (wl_rf w)) eqn:Hd.
+    + destruct (ginv_write (fun i => clk (length (rf_hist (wl_rf w)) + i)%nat) (wl_rf w) (concat (l :: ls)) G Hd)
+        as (st' & hs & Hr & G' & Hd' & Hp).
+      rewrite Hr. eexists. split; [reflexivity|]. cbn [wl_rf wl_buf]. split; [|auto].
+      constructor; cbn [wl_rf wl_buf]; auto.
+      * eapply (fine_write _ (wl_rf w) st' (concat (l :: ls)) hs); [apply aligned_concat, B|exact G|exact F|exact Hp].
+      * rewrite (write_stream _ _ _ _ _ G Hp), Hd'. cbn [concat]. rewrite app_nil_r. exact S.
+    + rewrite (rf_write_err _ _ _ Hd). eexists. split; [reflexivity|]. cbn [wl_rf wl_buf]. split; [|auto].
+      constructor; cbn [wl_rf wl_buf]; auto. rewrite Hd. exact S.
+Qed.
+
+(* what one event adds to the accepted lines, and whether the destination is reachable afterwards *)
+Definition ev_adds (d : bool) (e : wev) : bytes :=
+  match e with ESend _ l => if d then l else [] | _ => [] end.
+Definition ev_dir (d : bool) (e : wev) : bool :=
+  match e with EFault _ FDirAway => false | EFault _ FDirBack => true | _ => d end.
+
+Lemma wl_accepted_cons d e r : wl_accepted d (e :: r) = ev_adds d e ++ wl_accepted (ev_dir d e) r.
+Proof. destruct e as [c l| |c|c f]; cbn; [destruct d; reflexivity|reflexivity|reflexivity|destruct f; reflexivity]. Qed.
+
+Lemma step_inv init w acc e :
+  winvc init w acc -> send_ok e ->
+  exists w', wl_step w e = Some w' /\ winvc init w' (acc ++ ev_adds (rf_dir (wl_rf w)) e) /\
+             rf_dir (wl_rf w') = ev_dir (rf_dir (wl_rf w)) e.
+Proof.
+  intros I He. destruct e as [clk line| |clk|clk f]; cbn [wl_step ev_adds ev_dir].
+  - set (w1 := mkWL (wl_rf w) (wl_buf w ++ [line]) (wl_len w + zlen line)).
+    assert (I1 : winvc init w1 (acc ++ (if rf_dir (wl_rf w) then line else []))).
+    { destruct I as [G F B S]. constructor; cbn [wl_rf wl_buf w1]; auto.
+      - apply Forall_app. split; [exact B|]. constructor; [exact He|constructor].
+      - rewrite app_assoc, <- S. destruct (rf_dir (wl_rf w)).
+        + rewrite concat_app. cbn. rewrite app_nil_r, <- !app_assoc. reflexivity.
+        + rewrite !app_nil_r. reflexivity. }
+    cbn zeta. fold w1. destruct (wl_len w1 <? FLUSH_BYTES).
+    + exists w1. auto.
+    + destruct (flush_inv init clk w1 _ I1) as (w' & Hf & I' & _ & Hd). exists w'. auto.
+  - exists w. rewrite app_nil_r. auto.
+  - destruct (flush_inv init clk w acc I) as (w' & Hf & I' & _ & Hd). exists w'. rewrite app_nil_r. auto.
+  - destruct (flush_inv init clk w acc I) as (w1 & Hf & [G F B S] & Hb & Hd). rewrite Hf.
+    eexists. split; [reflexivity|]. cbn [wl_rf wl_buf]. rewrite app_nil_r, Hb in *. cbn [concat] in S.
+    assert (S0 : stream_of (wl_rf w1) = init ++ acc) by (destruct (rf_dir (wl_rf w1)); rewrite app_nil_r in S; exact S).
+    destruct f; cbn [apply_fault].
+    + split; [|rewrite dir_remove; exact Hd]. constructor; cbn [wl_rf wl_buf]; [apply ginv_remove, G|apply fine_remove, F|constructor|].
+      rewrite stream_remove, S0. cbn [concat]. destruct (rf_dir (ext_remove (wl_rf w1))); apply app_nil_r.
+    + split; [|rewrite dir_move; exact Hd]. constructor; cbn [wl_rf wl_buf]; [apply ginv_move, G|apply fine_move, F|constructor|].
+      rewrite stream_move, S0. cbn [concat]. destruct (rf_dir (ext_move (wl_rf w1))); apply app_nil_r.
+    + split; [|reflexivity]. constructor; cbn [wl_rf wl_buf]; [apply ginv_dir, G|exact F|constructor|].
+      change (stream_of (ext_dir false (wl_rf w1))) with (stream_of (wl_rf w1)). rewrite S0. apply app_nil_r.
+    + split; [|reflexivity]. constructor; cbn [wl_rf wl_buf]; [apply ginv_dir, G|exact F|constructor|].
+      change (stream_of (ext_dir true (wl_rf w1))) with (stream_of (wl_rf w1)). rewrite S0. apply app_nil_r.
+Qed.
+
+(* every request is received (the run is total), whatever the events, and the invariant holds *)
+Lemma run_inv init : forall es w acc,
+  winvc init w acc -> Forall send_ok es ->
+  exists w', wl_run w es = Some w' /\ winvc init w' (acc ++ wl_accepted (rf_dir (wl_rf w)) es).
+Proof.
+  induction es as [|e es IH]; intros w acc I Hs; cbn [wl_run].
+  - exists w. cbn. rewrite app_nil_r. auto.
+  - inversion Hs as [|? ? He Hs']; subst.
+    destruct (step_inv init w acc e I He) as (w1 & Hst & I1 & Hd). rewrite Hst.
+    destruct (IH w1 _ I1 Hs') as (w' & Hr & I'). exists w'. split; [exact Hr|].
+    rewrite wl_accepted_cons, app_assoc, <- Hd. exact I'.
+Qed.
+
+Lemma wl_run_total : forall es w, ginv (wl_rf w) -> exists w', wl_run w es = Some w'.
 Proof.
   induction es as [|e es IH]; intros w G; cbn [wl_run]; [eauto|].
   assert (Hfl : forall s w0, ginv (wl_rf w0) -> exists w1, wl_flush s w0 = Some w1 /\ ginv (wl_rf w1)).
   { intros s w0 G0. unfold wl_flush. destruct (wl_buf w0) as [|l ls] eqn:Eb; [eauto|].
-    destruct (ginv_write (fun i => s (length (rf_hist (wl_rf w0)) + i)%nat) (wl_rf w0) (concat (l :: ls)) G0) as (st' & hs & Hr & G' & _).
-    rewrite Hr. eexists. split; [reflexivity|]. exact G'. }
-  unfold wl_step. destruct e as [s line|s].
+    destruct (rf_dir (wl_rf w0)) eqn:Hd.
+    - destruct (ginv_write (fun i => s (length (rf_hist (wl_rf w0)) + i)%nat) (wl_rf w0) (concat (l :: ls)) G0 Hd) as (st' & hs & Hr & G' & _).
+      rewrite Hr. eexists. split; [reflexivity|]. exact G'.
+    - rewrite (rf_write_err _ _ _ Hd). eexists. split; [reflexivity|]. exact G0. }
+  unfold wl_step. destruct e as [s line| |s|s f].
   - cbn zeta. destruct (_ <? FLUSH_BYTES).
     + apply IH. exact G.
     + destruct (Hfl s (mkWL (wl_rf w) (wl_buf w ++ [line]) (wl_len w + zlen line)) G) as (w1 & -> & G1). apply IH, G1.
+  - apply IH, G.
   - destruct (Hfl s w G) as (w1 & -> & G1). apply IH, G1.
+  - destruct (Hfl s w G) as (w1 & -> & G1). apply IH. cbn [wl_rf].
+    destruct f; cbn [apply_fault]; [apply ginv_remove|apply ginv_move|apply ginv_dir|apply ginv_dir]; exact G1.
 Qed.
 
 (* New hands out a channel exactly when max >= 1024 and the destination can be opened; on a
-   channel handed out every Send returns *)
+   channel handed out every Send returns - whatever is sent (encodable or not) and whatever
+   happens to the destination *)
 Lemma new_spec max openable s init :
   match wl_new max openable s init with
   | Some w => 1024 <= max /\ openable = true /\ forall es, exists w', wl_run w es = Some w'
@@ -793,40 +1012,96 @@ Lemma new_spec max openable s init :
 Proof.
   unfold wl_new. destruct (max <? 1024) eqn:E; [left; lia|]. destruct openable; [|right; reflexivity].
   split; [lia|]. split; [reflexivity|]. intros es.
-  destruct (wl_run_total es (mkWL (rf_open max s init) [] 0)) as (w' & H & _); [apply ginv_open|eauto].
+  apply (wl_run_total es (mkWL (rf_open max s init) [] 0)). apply ginv_open.
+Qed.
+
+Lemma wl_run_app es1 : forall es2 w, wl_run w (es1 ++ es2) =
+  match wl_run w es1 with Some w1 => wl_run w1 es2 | None => None end.
+Proof.
+  induction es1 as [|e es1 IH]; intros es2 w; cbn [app wl_run]; [reflexivity|].
+  destruct (wl_step w e); [apply IH|reflexivity].
+Qed.
+
+Fixpoint sends_aligned (es : list wev) : bool :=
+  match es with
+  | [] => true
+  | ESend _ l :: r => aligned_b l && sends_aligned r
+  | _ :: r => sends_aligned r
+  end.
+
+Lemma sends_aligned_ok es : sends_aligned es = true -> Forall send_ok es.
+Proof.
+  induction es as [|e r IH]; cbn; [constructor|]. destruct e; try (intros H; constructor; [exact I|auto]).
+  intros H. apply andb_true_iff in H as [H1 H2]. constructor; [apply aligned_b_sound, H1|auto].
+Qed.
+
+(* the channel end to end: whatever is sent - encodable events, events the encoder rejects - and
+   whatever happens to the destination between flushes - file removed, renamed, directory away
+   and back - once a second has passed without request, every file that was ever at the path
+   (oldest first) followed by the active file holds exactly the encodable events that were sent
+   while the destination was reachable: each once, in order, uncut; nothing was written through
+   a stale descriptor *)
+Lemma channel_lines max s init es clk w w' :
+  wl_new max true s init = Some w ->
+  aligned_b init = true -> sends_aligned es = true -> no_blank_b (init ++ wl_accepted true es) = true ->
+  wl_run w (es ++ [EIdle clk]) = Some w' ->
+  hist_lines (rf_hist (wl_rf w')) ++ lines_of (rf_cur (wl_rf w')) = lines_of (init ++ wl_accepted true es) /\
+  wl_buf w' = [] /\ rf_lost (wl_rf w') = [].
+Proof.
+  intros Hn Hi Hs Hb Hr. unfold wl_new in Hn. destruct (max <? 1024); [discriminate|]. inversion Hn; subst w. clear Hn.
+  set (w0 := mkWL (rf_open max s init) [] 0) in *.
+  assert (I0 : winvc init w0 []).
+  { constructor; cbn [w0 wl_rf wl_buf].
+    - apply ginv_open.
+    - unfold rf_open. apply fine_reopen. split; [apply aligned_b_sound, Hi|constructor].
+    - constructor.
+    - rewrite open_stream. cbn [concat]. destruct (rf_dir _); rewrite !app_nil_r; reflexivity. }
+  destruct (run_inv init es w0 [] I0 (sends_aligned_ok es Hs)) as (w1 & Hr1 & I1).
+  rewrite wl_run_app, Hr1 in Hr. cbn [wl_run wl_step] in Hr.
+  destruct (flush_inv init clk w1 _ I1) as (w2 & Hf & [G F B S] & Hbuf & _). rewrite Hf in Hr. inversion Hr; subst w2.
+  cbn [app] in S. replace (rf_dir (wl_rf w0)) with true in S by (symmetry; apply open_dir).
+  rewrite Hbuf in S. cbn [concat] in S.
+  assert (S0 : stream_of (wl_rf w') = init ++ wl_accepted true es) by (destruct (rf_dir (wl_rf w')); rewrite app_nil_r in S; exact S).
+  split; [|split; [exact Hbuf|apply G]].
+  destruct F as [_ Fh]. apply lines_of_history; [exact S0|apply no_blank_b_sound, Hb|exact Fh].
 Qed.
 
 (* ---- statements used by Properties.v ---- *)
 Lemma write_total clk st p :
-  rinv st -> exists st', rf_write clk st p = WOk st' (zlen p) /\ rinv st' /\ rf_max st' = rf_max st.
+  rinv st ->
+  (rf_dir st = true -> exists st', rf_write clk st p = WOk st' (zlen p) /\ rinv st' /\ rf_max st' = rf_max st) /\
+  (rf_dir st = false -> rf_write clk st p = WErr st).
 Proof.
-  intros H. destruct (rf_write_ok clk st p H) as (st' & hs & Hr & Hp). exists st'. split; [exact Hr|].
+  intros H. split; [|apply rf_write_err]. intros Hd.
+  destruct (rf_write_ok clk st p H Hd) as (st' & hs & Hr & Hp). exists st'. split; [exact Hr|].
   destruct Hp. split; [apply winv_rinv; assumption|]. rewrite wp_max0. apply after_stat_fields.
 Qed.
 
 Lemma history_total max s init ops :
-  exists st, run (rf_open max s init) [] ops = Some (st, written_lens ops) /\ rinv st.
+  exists st, run (rf_open max s init) [] ops = Some (st, written_lens true ops) /\ rinv st /\ rf_lost st = [].
 Proof.
   destruct (run_total ops _ [] (ginv_open max s init)) as (st & H & G).
-  exists st. split; [exact H|apply G].
+  exists st. rewrite open_dir in H. split; [exact H|]. split; apply G.
 Qed.
 
-(* one Write, whatever happened to the file before: the bytes of p are in the active file or in
-   the files this call rotated away, in order; the only bytes not in a file are newlines that end
-   the last line of a rotated file; no name is used twice *)
+(* one Write while the destination is reachable, whatever happened to the file before: the bytes
+   of p are in the active file or in the files this call rotated away, in order; the only bytes
+   not in a file are newlines that end the last line of a rotated file; no name is used twice;
+   nothing goes through a stale descriptor *)
 Lemma write_accounts clk st p :
-  rinv st ->
+  rinv st -> rf_dir st = true ->
   exists st' hs, rf_write clk st p = WOk st' (zlen p) /\
     rf_hist st' = rf_hist st ++ hs /\
     rf_rot st' = rf_rot st ++ hist_files hs /\
     hist_stream hs ++ rf_cur st' = rf_cur st ++ p /\
     Forall (fun e => h_skipped e = [NL] \/ (h_skipped e = [] /\ h_kind e = RFresh)) hs /\
     map h_sec hs = map clk (seq 0 (length hs)) /\
-    (NoDup (map fst (rf_rot st)) -> NoDup (map fst (rf_rot st'))).
+    (NoDup (map fst (rf_rot st)) -> NoDup (map fst (rf_rot st'))) /\
+    rf_lost st' = rf_lost st.
 Proof.
-  intros H. destruct (rf_write_ok clk st p H) as (st' & hs & Hr & Hp). exists st', hs. split; [exact Hr|].
-  destruct (after_stat_winv st H) as [_ Ec]. destruct (after_stat_fields st) as (Em & _ & _ & Eh & Er).
-  destruct Hp. rewrite Eh in wp_hist0. rewrite Ec in wp_stream0. rewrite Er in wp_rot0, wp_nodup0.
+  intros H Hd. destruct (rf_write_ok clk st p H Hd) as (st' & hs & Hr & Hp). exists st', hs. split; [exact Hr|].
+  destruct (after_stat_winv st H) as [_ Ec]. destruct (after_stat_fields st) as (Em & _ & _ & Eh & Er & _ & El).
+  destruct Hp. rewrite Eh in wp_hist0. rewrite Ec in wp_stream0. rewrite Er in wp_rot0, wp_nodup0. rewrite El in wp_lost0.
   repeat split; auto.
 Qed.
 
@@ -835,7 +1110,7 @@ Definition files_lines (st : rf) : list bytes :=
   flat_map lines_of (map snd (rf_rot st)) ++ lines_of (rf_cur st).
 
 Definition full_lines : Prop := forall max s init ops st rets,
-  aligned_b init = true -> writes_aligned ops = true -> no_blank_b (init ++ written_of ops) = true ->
+  aligned_b init = true -> writes_aligned true ops = true -> no_blank_b (init ++ written_of ops) = true ->
   run (rf_open max s init) [] ops = Some (st, rets) ->
   rf_moved st = [] -> rf_gone st = [] ->
   files_lines st = lines_of (init ++ written_of ops).
@@ -865,7 +1140,7 @@ Definition names_are (st : rf) (l : list (N * N)) : bool :=
 Definition lines_match (st : rf) (ops : list op) : bool :=
   list_eqb beq (files_lines st) (lines_of (written_of ops)).
 Definition hyps_ok (ops : list op) : bool :=
-  aligned_b [] && writes_aligned ops && no_blank_b ([] ++ written_of ops).
+  aligned_b [] && writes_aligned true ops && no_blank_b ([] ++ written_of ops).
 
 (* ---- the scan: the index loop of the Go code and the structural split agree ---- *)
 Lemma scan_down_spec p : forall j,
